@@ -50,7 +50,7 @@ var c17EndStoreReviewed = map[string]string{}
 var c17EndLastReviewed = map[string]string{}
 
 func runC17(c *core.Check) {
-	prog := c.Load("./ast", "./parser", "./token")
+	prog := c.Load("./ast", "./parser", "./token", "./scanner")
 	apk, ppk, tpk := prog.Pkg("./ast"), prog.Pkg("./parser"), prog.Pkg("./token")
 	if apk == nil || ppk == nil || tpk == nil {
 		return
@@ -363,6 +363,89 @@ func runC17(c *core.Check) {
 		}
 		c.Analysed("node_types_with_end_checked", nLast)
 		c.Floor("end-last-field", 60)
+	}
+
+	// ---------- prefixed literals: for c"…" and py"…" the scanner's literal text starts at the quote (the prefix letters are
+	// consumed as an identifier first) while the token position is that of the prefix; BasicLit.End = ValuePos + len(Value)
+	// must add the prefix length for exactly those kinds
+	if spk := prog.Pkg("./scanner"); spk != nil {
+		prefixed := map[string]int{} // token kind → prefix length
+		if scan := core.FindFuncDecl(spk, "Scanner.Scan"); scan != nil {
+			ast.Inspect(scan.Body, func(n ast.Node) bool {
+				is, ok := n.(*ast.IfStmt)
+				if !ok {
+					return true
+				}
+				// if <lit == "py" …> && s.ch == '"' { s.next(); tok = token.K; lit = s.scanString() }
+				cond := nows(core.ExprStr(is.Cond))
+				if !strings.Contains(cond, "lit==") || !strings.Contains(cond, "s.ch=='\"'") {
+					return true
+				}
+				plen := 0
+				for _, q := range []string{`lit=="py"`, `lit=="c"`} {
+					if strings.Contains(cond, q) {
+						plen = len(q) - len(`lit==""`)
+					}
+				}
+				kind, rescans := "", false
+				for _, st := range is.Body.List {
+					if as, ok := st.(*ast.AssignStmt); ok && len(as.Lhs) == 1 && len(as.Rhs) == 1 {
+						l, r := core.ExprStr(as.Lhs[0]), nows(core.ExprStr(as.Rhs[0]))
+						if l == "tok" && strings.HasPrefix(r, "token.") {
+							kind = strings.TrimPrefix(r, "token.")
+						}
+						if l == "lit" && r == "s.scanString()" {
+							rescans = true
+						}
+					}
+				}
+				if kind != "" && rescans && plen > 0 {
+					prefixed[kind] = plen
+				}
+				return true
+			})
+		}
+		if len(prefixed) < 2 {
+			c.Undecided("prefixed-literal-end", "scanner.Scan", 0, "the prefixed string arms (c\"…\", py\"…\") were not found in Scanner.Scan in the expected shape")
+		}
+		endFD := core.FindFuncDecl(apk, "BasicLit.End")
+		for kind, plen := range prefixed {
+			okKind := false
+			if endFD != nil {
+				ast.Inspect(endFD.Body, func(n ast.Node) bool {
+					cc, ok := n.(*ast.CaseClause)
+					if !ok {
+						return true
+					}
+					for _, e := range cc.List {
+						if nows(core.ExprStr(e)) == "token."+kind {
+							added := 0
+							for _, st := range cc.Body {
+								switch x := st.(type) {
+								case *ast.IncDecStmt:
+									if x.Tok == token.INC {
+										added++
+									}
+								case *ast.AssignStmt:
+									if x.Tok == token.ADD_ASSIGN && len(x.Rhs) == 1 {
+										if tv := info.Types[x.Rhs[0]]; tv.Value != nil {
+											if k, ok := constant.Int64Val(tv.Value); ok {
+												added += int(k)
+											}
+										}
+									}
+								}
+							}
+							if added == plen {
+								okKind = true
+							}
+						}
+					}
+					return true
+				})
+			}
+			c.Decide(okKind, "prefixed-literal-end", "BasicLit:"+kind, 0, core.Sprintf("End adds the %d prefix byte(s) the literal text does not contain", plen), core.Sprintf("the scanner returns a %s token whose literal text starts at the quote while its position is that of the %d-byte prefix, but BasicLit.End() does not add %d for this kind: the literal's span ends %d byte(s) before its closing quote", kind, plen, plen, plen))
+		}
 	}
 
 	// ---------- a field that End() returns as it is (an END position: LambdaExpr.Last, CallExpr.NoParenEnd, ImportSpec.EndPos
